@@ -299,7 +299,7 @@ def blocks(tier, seed):
     nw = len(witness_descriptors(flags))
     return [Block('witness_x_lock_cross_product', [(i, tier) for i in range(nw)], pair_case,
                   '%d witness descriptors x %d lock descriptors x 3 verifier sigfield contexts; every byte of positive witnesses perturbed'
-                  % (nw, len(lock_descriptors(flags))), nshards=nw)]
+                  % (nw, len(lock_descriptors(flags))), nshards=nw, backstop=3600)]
 
 
 def meta(tier, seed):
